@@ -33,6 +33,40 @@ def has_linear_or_fp(t) -> bool:
     return '"qubit"' in s or '"b": "A"' in s or '"b": "F"' in s
 
 
+def flip_leaf_bounds(t):
+    """The same type with the declared bound of every variable, alias and opaque leaf flipped:
+    it prints the same and is a different type."""
+    if isinstance(t, list):
+        return [flip_leaf_bounds(x) for x in t]
+    if not isinstance(t, dict):
+        return t
+    r = {k: flip_leaf_bounds(v) for k, v in t.items()}
+    if t.get("k") in ("var", "rowvar", "alias", "opaque") and t.get("b") in ("A", "C"):
+        r["b"] = "C" if t["b"] == "A" else "A"
+    return r
+
+
+def check_twin(t) -> list[Fail]:
+    """Bounds are a function of the type alone: asking about a look-alike type in between must not
+    change the answer (no state shared between queries)."""
+    twin = flip_leaf_bounds(t)
+    if twin == t:
+        return []
+    try:
+        x2 = mk_type(twin)
+        want2 = ref.ref_bound(twin)
+    except Exception:  # noqa: BLE001 - the twin need not be constructible (copyable-only positions)
+        return []
+    fails = []
+    got2 = x2.type_bound().value
+    if got2 != want2:
+        fails.append(Fail("type_bound", "look-alike:" + t["k"], f"got={got2} want={want2} type={json.dumps(twin)[:200]}"))
+    got = mk_type(t).type_bound().value
+    if got != ref.ref_bound(t):
+        fails.append(Fail("type_bound", "after-look-alike:" + t["k"], f"got={got} want={ref.ref_bound(t)} type={json.dumps(t)[:200]}"))
+    return fails
+
+
 def check_type(case) -> list[Fail]:
     import hugr._serialization.tys as stys
 
@@ -52,6 +86,7 @@ def check_type(case) -> list[Fail]:
     y = stys.Type.model_validate(e).deserialize()
     if y.type_bound().value != want:
         fails.append(Fail("decoded-bound", t["k"], f"{y.type_bound().value} != {want}"))
+    fails += check_twin(t)
     return fails
 
 
